@@ -5,8 +5,10 @@
 (* re-assigned between calls: key roll-over, revocation, time passing).    *)
 (* Nothing derived from the configuration may be cached across calls.      *)
 (*                                                                         *)
-(* Ops: <<"store", s>> with s in A / B / AB (the IdP certificates trusted  *)
-(* from now on); <<"clock", t>> (half-second units; the SP encryption      *)
+(* Ops: <<"store", s>> with s in A / B / AB / NA (the IdP certificates      *)
+(* trusted from now on; N is the IdP's NEXT certificate, listed first and  *)
+(* valid only from clock 12 on: the store as it looks during a roll-over); *)
+(* <<"clock", t>> (half-second units; the SP encryption      *)
 (* certificate is valid in [4,12] and its validation is switched on);      *)
 (* <<"val", kind, signer>>: validate a message of the kind signed by A / B.*)
 (***************************************************************************)
@@ -14,22 +16,27 @@ EXTENDS Naturals, Sequences, FiniteSets, TLC
 
 CONSTANTS MaxLen
 
-Stores == {"A", "B", "AB"}
+Stores == {"A", "B", "AB", "NA"}
+Signers == {"A", "B", "N"}
 Clocks == {8, 14}
 Kinds  == {"sso", "ssoenc", "logoutReq", "logoutResp"}
-Ops == { <<"store", s>> : s \in Stores } \cup { <<"clock", t>> : t \in Clocks } \cup { <<"val", k, s>> : k \in Kinds, s \in {"A", "B"} }
+Ops == { <<"store", s>> : s \in Stores } \cup { <<"clock", t>> : t \in Clocks } \cup { <<"val", k, s>> : k \in Kinds, s \in Signers }
 Seqs(S, n) == UNION { [1..k -> S] : k \in 1..n }
 \* histories that end in a validation (the last call is what is judged hardest) and contain a reconfiguration
 Histories == { h \in Seqs(Ops, MaxLen) : h[Len(h)][1] = "val" }
 
-Init0 == [store |-> "A", now |-> 8]
+Init0 == [store |-> "NA", now |-> 8]
 Apply(st, op) == CASE op[1] = "store" -> [st EXCEPT !.store = op[2]]
                    [] op[1] = "clock" -> [st EXCEPT !.now = op[2]]
                    [] OTHER -> st
 RECURSIVE StateBefore(_, _)
 StateBefore(h, i) == IF i = 1 THEN Init0 ELSE Apply(StateBefore(h, i - 1), h[i - 1])
 
-Trusted(st, signer) == st.store = "AB" \/ st.store = signer
+InStore(st, signer) == \/ signer = "A" /\ st.store \in {"A", "AB", "NA"}
+                       \/ signer = "B" /\ st.store \in {"B", "AB"}
+                       \/ signer = "N" /\ st.store = "NA"
+CertValid(signer, now) == signer # "N" \/ now >= 12
+Trusted(st, signer) == InStore(st, signer) /\ CertValid(signer, st.now)
 EncOK(st) == 4 <= st.now /\ st.now <= 12
 Expected(st, op) == IF op[1] # "val" THEN "na"
                     ELSE IF Trusted(st, op[3]) /\ (op[2] = "ssoenc" => EncOK(st)) THEN "accept" ELSE "reject"
